@@ -90,6 +90,7 @@ func (adminLoad) handleLoad(w http.ResponseWriter, r *http.Request) error {
 		}
 	}
 	body := buf.Bytes()
+	var respBody []byte // adapter warnings, if any
 
 	// if the config is formatted other than Caddy's native
 	// JSON, we need to adapt it before loading it
@@ -102,11 +103,10 @@ func (adminLoad) handleLoad(w http.ResponseWriter, r *http.Request) error {
 			}
 		}
 		if len(warnings) > 0 {
-			respBody, err := json.Marshal(warnings)
+			respBody, err = json.Marshal(warnings)
 			if err != nil {
 				caddy.Log().Named("admin.api.load").Error(err.Error())
 			}
-			_, _ = w.Write(respBody)
 		}
 		body = result
 	}
@@ -119,6 +119,13 @@ func (adminLoad) handleLoad(w http.ResponseWriter, r *http.Request) error {
 			HTTPStatus: http.StatusBadRequest,
 			Err:        fmt.Errorf("loading config: %v", err),
 		}
+	}
+
+	// only now that the load has succeeded: writing the adapter's
+	// warnings earlier would commit the response to status 200
+	// before the outcome of the load is known
+	if len(respBody) > 0 {
+		_, _ = w.Write(respBody)
 	}
 
 	caddy.Log().Named("admin.api").Info("load complete")
